@@ -555,16 +555,8 @@ impl<'t, 'c> Gen<'t, 'c> {
             9 => {
                 // single-line IF
                 let c = self.cond(1);
-                let mut then_ = if self.t.chance(1, 2) { self.print_stmt() } else { self.assign_stmt() };
+                let then_ = if self.t.chance(1, 2) { self.print_stmt() } else { self.assign_stmt() };
                 let else_ = if self.t.chance(1, 3) { Some(Box::new(self.print_stmt())) } else { None };
-                if else_.is_some() {
-                    // known finding ifline-trailing-separator-before-else: never end the THEN part with a separator
-                    if let Stmt::Print(items) = &mut then_ {
-                        while matches!(items.last(), Some(PrintItem::Semi | PrintItem::Comma)) {
-                            items.pop();
-                        }
-                    }
-                }
                 out.push(Stmt::IfLine { cond: c, then_: Box::new(then_), else_ });
             }
             10 | 11 | 12 => {
